@@ -283,7 +283,8 @@ def d2_6(ctx):
     cut = any(isinstance(n, ast.Assign) and atom_name(n.targets[0]) == "value" and isinstance(n.value, ast.Subscript) and isinstance(n.value.slice, ast.Slice) and atom_name(n.value.slice.upper) == "value_elements" and n.value.slice.lower is None for n in walk(fn.node))
     arr_call = [c for c in walk(fn.node) if isinstance(c, ast.Call) and attr_path(c.func) == "_type.encode" and len(c.args) == 2]
     ctx.check(cut and len(arr_call) == 1 and atom_name(arr_call[0].args[1]) == "value_elements", ckey(fn, "truncate"), fn.node, "over-long lists are cut to the requested count and encoded with that count", "over-long value lists are not truncated to the requested element count")
-    wraps = any(isinstance(h, ast.ExceptHandler) and any(isinstance(s, ast.Raise) and call_name(s.exc) == "RequestError" for s in h.body) for h in walk(fn.node))
+    from ..cfg import handler_catches_all
+    wraps = any(isinstance(h, ast.ExceptHandler) and handler_catches_all(h) and any(isinstance(s, ast.Raise) and call_name(s.exc) == "RequestError" for s in h.body) for h in walk(fn.node))
     ctx.check(wraps, ckey(fn, "wrap"), fn.node, "encoding failures become RequestError", "encode_value no longer converts encoding failures into RequestError")
 
 
